@@ -19,6 +19,7 @@ import (
 	"testing/synctest"
 	"time"
 
+	"github.com/keybase/go-codec/codec"
 	"golang.org/x/net/context"
 )
 
@@ -30,6 +31,45 @@ type recStorage struct {
 func (s *recStorage) Put(_ context.Context, tag string, rec InstrumentationRecord) error {
 	s.r.ev("rec %d %x %d", s.ep, tag, rec.Size)
 	return nil
+}
+
+// payloadNonce: the nonce inside a compressed argument / result (the monitors
+// cannot decompress); "-" when the payload is not compressed or not ours.
+func payloadNonce(frame []byte) string {
+	defer func() { _ = recover() }()
+	var arr []interface{}
+	if len(frame) == 0 {
+		return "-"
+	}
+	dec := codec.NewDecoderBytes(frame[prefixLen(frame):], newCodecMsgpackHandle())
+	if err := dec.Decode(&arr); err != nil || len(arr) < 3 {
+		return "-"
+	}
+	var blob []byte
+	switch vtext(arr[0]) {
+	case "i4":
+		if len(arr) >= 5 {
+			blob, _ = arr[4].([]byte)
+		}
+	case "i1":
+		if len(arr) >= 4 {
+			blob, _ = arr[3].([]byte)
+		}
+	}
+	if len(blob) == 0 {
+		return "-"
+	}
+	for _, ct := range []int{1, 2} {
+		plain, err := realDecompress(ct, blob)
+		if err != nil {
+			continue
+		}
+		var v interface{}
+		if err := codec.NewDecoderBytes(plain, newCodecMsgpackHandle()).Decode(&v); err == nil {
+			return nonceOf(v)
+		}
+	}
+	return "-"
 }
 
 type endpoint struct {
@@ -106,7 +146,7 @@ func (s *session) newEndpoint(id int, c *simConn) *endpoint {
 	e := &endpoint{id: id, conn: c}
 	c.onWrite = func(p []byte) error {
 		verifPoint("conn.Write")
-		s.r.ev("wr %d %x", id, p)
+		s.r.ev("wr %d %x %s", id, p, payloadNonce(p))
 		return nil
 	}
 	e.xp = NewTransport(c, quietLogFactory(), &recStorage{s.r, id}, nil, s.max).(*transport)
@@ -180,6 +220,29 @@ func (s *session) newEndpoint(id int, c *simConn) *endpoint {
 	return e
 }
 
+// observe reads the lifecycle accessors in an order that stays meaningful
+// although other goroutines may run between the reads (the state only moves
+// from open to closed): Err, Done, IsConnected, Done, Err.
+func (s *session) observe(e int) string {
+	done := func() int {
+		select {
+		case <-s.ep[e].srv.Done():
+			return 1
+		default:
+			return 0
+		}
+	}
+	e1 := errClass(s.ep[e].srv.Err())
+	d1 := done()
+	cn := 0
+	if s.ep[e].xp.IsConnected() {
+		cn = 1
+	}
+	d2 := done()
+	e2 := errClass(s.ep[e].srv.Err())
+	return fmt.Sprintf("obs %d %s %d %d %d %s", e, e1, d1, cn, d2, e2)
+}
+
 type sessOp struct {
 	caller  int
 	ep      int
@@ -209,7 +272,6 @@ func (s *session) runOp(op sessOp, ctx context.Context) {
 	s.r.ev("cb %d %d %s %s %d %d %d", op.caller, op.ep, op.kind, op.method, op.nonce, op.ctype, tg)
 	var err error
 	res := new(interface{})
-	*res = int64(-7)
 	switch op.kind {
 	case "call":
 		err = e.cli.Call(ctx, "p."+op.method, arg, res, op.timeout)
@@ -354,17 +416,7 @@ func runSession(g *prng, p sessPlan, script []string) (hist []string, trace []st
 			for i := 0; i < 12; i++ {
 				verifPoint("@obs.tick")
 				for e := 0; e < 2; e++ {
-					d := 0
-					select {
-					case <-s.ep[e].srv.Done():
-						d = 1
-					default:
-					}
-					cn := 0
-					if s.ep[e].xp.IsConnected() {
-						cn = 1
-					}
-					cur := fmt.Sprintf("obs %d %d %d %s", e, d, cn, errClass(s.ep[e].srv.Err()))
+					cur := s.observe(e)
 					if cur != last[e] {
 						last[e] = cur
 						r.ev("%s", cur)
@@ -382,17 +434,7 @@ func runSession(g *prng, p sessPlan, script []string) (hist []string, trace []st
 	// observe once more, then tear down what is still open
 	r.spawn("teardown", func() {
 		for e := 0; e < 2; e++ {
-			d := 0
-			select {
-			case <-s.ep[e].srv.Done():
-				d = 1
-			default:
-			}
-			cn := 0
-			if s.ep[e].xp.IsConnected() {
-				cn = 1
-			}
-			r.ev("obs %d %d %d %s", e, d, cn, errClass(s.ep[e].srv.Err()))
+			r.ev("%s", s.observe(e))
 			r.ev("pend %d %d", e, len(s.ep[e].xp.calls.calls))
 		}
 		for e := 0; e < 2; e++ {
